@@ -763,6 +763,28 @@ fn misc_op(op: &str, a: &[&str]) -> R {
             let pairs: Vec<_> = ps.iter().zip(qs.iter()).collect();
             Bls12::miller_loop(&pairs).show()
         }
+        // pairs given by index: pair i = (&ps[pi[i]], &qs[qi[i]]) -- the SAME prepared element (same reference) may serve
+        // several pairs of one Miller loop ("prepared elements can be reused")
+        ("millerref", 4) => {
+            let mut ps = vec![];
+            for t in split_list(a[0]) { ps.push(g1::parse_aff(t)?.prepare()); }
+            let mut qs = vec![];
+            for t in split_list(a[1]) { qs.push(g2::parse_aff(t)?.prepare()); }
+            let mut pairs = vec![];
+            let pis = split_list(a[2]); let qis = split_list(a[3]);
+            if pis.len() != qis.len() { return None; }
+            for (i, j) in pis.iter().zip(qis.iter()) {
+                let (i, j) = (parse_usize(i)?, parse_usize(j)?);
+                if i >= ps.len() || j >= qs.len() { return None; }
+                pairs.push((&ps[i], &qs[j]));
+            }
+            let refs: Vec<_> = pairs.iter().map(|(p, q)| (*p, *q)).collect();
+            let m1 = Bls12::miller_loop(&refs);
+            // evaluate the same list a second time with the same prepared elements
+            let m2 = Bls12::miller_loop(&refs);
+            if m1 != m2 { return Some(format!("UNSTABLE {} {}", m1.show(), m2.show())); }
+            show_opt(Bls12::final_exponentiation(&m1))
+        }
         ("finalexp", 1) => show_opt(Bls12::final_exponentiation(&Fq12::parse(a[0])?)),
         ("pairprod", 4) => Bls12::pairing_product(g1::parse_aff(a[0])?, g2::parse_aff(a[1])?, g1::parse_aff(a[2])?, g2::parse_aff(a[3])?).show(),
         ("pairmulti", 2) => {
